@@ -1236,5 +1236,73 @@ func indexUpdater(p *core.Prog) (fn *ssa.Function, ok bool) {
 			return f, true
 		}
 	}
+	// the read and the write may each sit in an unexported helper of the updater
+	// (`index, created := o.readOrInitIndex(r) … return o.storeIndex(r, index)`)
+	var deep []*ssa.Function
+	for _, f := range pkgFuncs(p, ocidirRel) {
+		if rds[f] || f == wr || f.Parent() != nil {
+			continue
+		}
+		scope := core.HelpersExcept(f, 2, func(h *ssa.Function) bool { return rds[h] || h == wr })
+		if len(scope) < 2 {
+			continue
+		}
+		found := false
+		// a helper of f that absorbs the failed read (from the reader's failure edge it can return
+		// without reporting a failure: `return indexCreate(), true`) …
+		for _, g := range sortedFuncs(scope) {
+			if g == f {
+				continue
+			}
+			absorbs := false
+			core.Calls(g, func(c ssa.CallInstruction) {
+				call, isCall := c.(*ssa.Call)
+				if h := core.CalleeFn(c); !isCall || h == nil || !rds[h] {
+					return
+				}
+				for _, e := range errEdgesOf(g, call) {
+					for in := range (core.Reach{}).FromEdge(e[0], e[1]) {
+						if ret, isRet := in.(*ssa.Return); isRet && !failureReturn(g, ret) {
+							absorbs = true
+						}
+					}
+				}
+			})
+			if !absorbs {
+				continue
+			}
+			// … and after whose call f goes on to the index write
+			core.Calls(f, func(c ssa.CallInstruction) {
+				if core.CalleeFn(c) != g {
+					return
+				}
+				for in := range (core.DeepReach{Scope: scope}).FromInstr(c.(ssa.Instruction)) {
+					if cc, isC := in.(ssa.CallInstruction); isC && core.CalleeFn(cc) == wr {
+						found = true
+					}
+				}
+			})
+		}
+		if found {
+			deep = append(deep, f)
+		}
+	}
+	if len(deep) > 0 {
+		// prefer the function the rules know as the updater, else the first by name
+		for _, f := range deep {
+			if canon(f) == "updateIndex" {
+				return f, true
+			}
+		}
+		return sortedFuncs(funcSetOfList(deep))[0], true
+	}
 	return p.Method(ocidirRel, "OCIDir", "updateIndex"), false
+}
+
+func funcSetOfList(l []*ssa.Function) map[*ssa.Function]bool {
+	out := map[*ssa.Function]bool{}
+	for _, f := range l {
+		out[f] = true
+	}
+	return out
 }
